@@ -290,19 +290,26 @@ bool Instance::eval(const size_t argc, char* const* argv) {
         return false;
     }
     CScript::const_iterator it = script.begin();
-    while (it != script.end()) {
+    // an OP_CODESEPARATOR among the executed operations would leave the signed-code start pointing into the
+    // temporary script above; the debugged script's own code separator state is kept
+    const CScript::const_iterator saved_begincodehash = env->pbegincodehash;
+    const uint32_t saved_codeseparator_pos = env->execdata.m_codeseparator_pos;
+    bool ok = true;
+    while (ok && it != script.end()) {
         try {
             if (!StepScript(*env, it, &script)) {
                 fprintf(stderr, "Error: %s\n", ScriptErrorString(*env->serror).c_str());
-                return false;
+                ok = false;
             }
         } catch (const std::exception& ex) {
             // same conversion as Instance::step: numeric and empty-stack failures are raised as exceptions
             fprintf(stderr, "Error: exception thrown: %s\n", ex.what());
-            return false;
+            ok = false;
         }
     }
-    return true;
+    env->pbegincodehash = saved_begincodehash;
+    env->execdata.m_codeseparator_pos = saved_codeseparator_pos;
+    return ok;
 }
 
 bool Instance::configure_tx_txin() {
